@@ -214,6 +214,7 @@ var hostileFragments = []string{
 	// letters, letter-like numbers; alone and next to the characters that start or continue a number/name/size
 	"\u0663", "\u0969", "\uff13", "\U0001d7d9", "\u00b2", "\u2167", ".\u0663", "e.\u0663", "E.\uff13", "x.\u0969", "1\u0663", "\u06631", "-\u0663", "0x\u0663", "1e\u0663", "[\u0663]", "[1..\u0663]",
 	"S\u0663F1", "S1F\u0663", "x[\u0663]", "...[\u0663]", "\u0663.", ".\u0663.", "\u0131", "\u212a", "\u017f", "\u0130", "\uff37", "\uff33\uff11\uff26\uff11",
+	"[\n1\n]", "[1\n..\n2]", "[\r\n2 ..]", "[ \n ]", "\u2c65", "\u2c66", "\u1fbe", "\u0131x", "x\u017f", "//\xff\xff", "//\u0131\n", "//\u2c65", "\ufeff", "\ufeffS1F1", "Name.", "n.", "//a\rb\n", "//a\r<U1 2>\n",
 	"//a\n//b\n//c\n", "//\n//\n//\n//\n", " //1\n //2\n //3\n //4\n //5\n", "//x\r\n//y\r\n//z", "[1.", "[.", "[ .", "[1 .", "[..", "[1..2", "[.]", "[1.]", "[1.2]", ".", "1.", "x.", "\"a\".",
 	"\"\"", "\"a\"", "\"é\"", "\"\\\"", "\"a\nb\"", "\"\n", "0x7F", "0x80", "127", "128", "255", "256", "-1", "1.5", ".5", "5.", "1_000", "0b2", "08", "0o8", "0xG",
 }
@@ -339,7 +340,7 @@ func c06InitialJobs(c *ctx, r *rng.R) []iso.Job {
 	}
 	// every hostile fragment in every structural position
 	for _, f := range hostileFragments {
-		for _, tmpl := range []string{"%s", "S1F1 %s", "S1F1 W %s .", "S1F1 W H->E name %s .", "S1F1 W <%s> .", "S1F1 W <L %s> .", "S1F1 W <A %s> .", "S1F1 W <U1 %s> .", "S1F1 W <U1%s 1> .", "S1F1 W <L <B 1> %s <B 2>> .", "S1F1 W <L <B 1>> %s", "S1F1 W <L> . %s S2F2 .", "S1F1 <L> .%s", "S1F1 W <L <A \"x\">>.%s", "S1F1 <A e%s>.", "S1F1 <A %s>.", "S1F1 W <U1 1%s> ."} {
+		for _, tmpl := range []string{"%s", "S1F1 %s", "S1F1 W %s .", "S1F1 W H->E name %s .", "S1F1 W <%s> .", "S1F1 W <L %s> .", "S1F1 W <A %s> .", "S1F1 W <U1 %s> .", "S1F1 W <U1%s 1> .", "S1F1 W <L <B 1> %s <B 2>> .", "S1F1 W <L <B 1>> %s", "S1F1 W <L> . %s S2F2 .", "S1F1 <L> .%s", "S1F1 W <L <A \"x\">>.%s", "S1F1 <A e%s>.", "S1F1 <A %s>.", "S1F1 W <U1 1%s> .", "S1F1 W <L%s <A x>\n<B 300>\n> .\nS2F2 <U1 256> .", "%s\nS1F1 W H->E n <L> .\n", "S1F1 W %s H->E n <L> .\n", "S1F1 W H->E n%s <L> .\n"} {
 			add("hostile-fragment", strings.Replace(tmpl, "%s", f, 1), "")
 		}
 	}
